@@ -94,7 +94,7 @@ func runRaceBatch(c *core.Ctx, j int) {
 	G := []int{2, 4, 8, 16}[j%4]
 	runs, n := 2, 1500
 	if !c.Quick() {
-		runs, n = 10, 20000
+		runs, n = 6, 8000
 	}
 	for run := 0; run < runs; run++ {
 		idx := scheduleBase + int64(run)
